@@ -106,6 +106,15 @@ def havoc_value(I, st, v, hint):
     raise Unsupported("cannot havoc %r" % (v,))
 
 
+def _same_scalar(a, b):
+    """immutable values that are equal as Python constants / identical terms"""
+    if is_z3(a) or is_z3(b):
+        return is_z3(a) and is_z3(b) and a.eq(b)
+    if isinstance(a, (int, float, Fraction, str, bool, type(None))) and type(a) is type(b):
+        return a == b
+    return False
+
+
 def eval_spec(I, st, expr_ast, what):
     """Evaluate a specification expression (may fork internally; result merged into one formula)."""
     trial = st.fork()
@@ -168,6 +177,57 @@ def run_invariant_loop(I, st, node, linv, qual, ordinal, head, after_body, body_
     for n in names:
         if n in st.frame.vars:
             st.frame.vars[n] = havoc_value(I, st, st.frame.vars[n], n)
+    # object state modified by the body: attributes named in "havoc" as dotted paths ("self.probe.count") get an
+    # arbitrary value of the same kind; any OTHER pre-existing object / container the body changes makes the
+    # lemma undecided (checked after the body below) - the invariant schema only covers what was havocked
+    havocked_attrs = set()
+    for path in linv.havoc:
+        if "." not in path:
+            continue
+        parts = path.split(".")
+        cur = st.frame.vars.get(parts[0])
+        for a in parts[1:-1]:
+            if not (isinstance(cur, Ref) and st.get(cur).kind == "obj" and a in st.get(cur).attrs):
+                raise Unsupported("loop havoc path %s does not resolve" % path)
+            cur = st.get(cur).attrs[a]
+        if not (isinstance(cur, Ref) and st.get(cur).kind == "obj" and parts[-1] in st.get(cur).attrs):
+            raise Unsupported("loop havoc path %s does not resolve" % path)
+        e = st.get(cur)
+        e.attrs[parts[-1]] = havoc_value(I, st, e.attrs[parts[-1]], path.replace(".", "_"))
+        havocked_attrs.add((cur.id, parts[-1]))
+    havocked_refs = set(v.id for v in st.frame.vars.values() if isinstance(v, Ref) and st.get(v).kind == "symlist")
+
+    def body_effects_covered(pre, post):
+        """every store entry that existed before the body is unchanged, except what the havoc covers"""
+        for k, e in pre.store.items():
+            f = post.store.get(k)
+            if f is None or f.kind != e.kind:
+                return "entry %d" % k
+            if k in havocked_refs:
+                continue
+            if e.kind in ("list", "deque", "set"):
+                if len(e.items) != len(f.items) or any(x is not y for x, y in zip(e.items, f.items)):
+                    return "a %s" % e.kind
+            elif e.kind == "dict":
+                if e.owner is None and (list(e.items.keys()) != list(f.items.keys()) or any(e.items[q] is not f.items[q] for q in e.items)):
+                    return "a dict"
+            elif e.kind == "obj":
+                if e.attrs.keys() != f.attrs.keys():
+                    return "attributes of a %s object" % getattr(e.cls, "name", "?")
+                for q in e.attrs:
+                    if e.attrs[q] is not f.attrs[q] and (k, q) not in havocked_attrs and not _same_scalar(e.attrs[q], f.attrs[q]):
+                        return "attribute %s of a %s object" % (q, getattr(e.cls, "name", "?"))
+            elif e.kind == "nd":
+                if any(x is not y and not _same_scalar(x, y) for x, y in zip(e.data, f.data)):
+                    return "an array"
+            elif e.kind == "symlist":
+                if e.length is not f.length or e.arr is not f.arr:
+                    return "a symbolic list"
+        if pre.heap.keys() != post.heap.keys() or any(pre.heap[q] is not post.heap[q] for q in pre.heap):
+            if not linv.ghost_update:
+                return "the abstract heap"
+        return None
+
     if linv.ghost_update:
         linv.ghost_update(I, st, "havoc")
     assume_inv(st)
@@ -186,7 +246,11 @@ def run_invariant_loop(I, st, node, linv, qual, ordinal, head, after_body, body_
             if pre_bind:
                 pre_bind(st1)
             d0 = list(I.ev(ast.parse(linv.decreases, mode="eval").body, st1))[0][1]
+        pre_body = st1.fork()
         for st2, ctrl in list(I.ex_block(body_stmts, st1)):
+            leak = body_effects_covered(pre_body, st2)
+            if leak is not None:
+                raise Unsupported("loop with an invariant modifies %s that is not havocked (add a dotted \"havoc\" path)" % leak)
             if ctrl is None or ctrl[0] == "continue":
                 after_body(st2)
                 check_inv(st2, "inv-preserved")
